@@ -70,7 +70,10 @@ def install(h, cfg):
         return res
       d = ed.diff_snapshots(base, m.snapshot())
       if d:
-        h._find(PROP, "table contents depend on the evaluation order: " + d[0].split(" ")[0] + " differs",
+        from gx.hist_run import circ_order_only, CIRC_ORDER_SIG
+        sig = (CIRC_ORDER_SIG % "order") if circ_order_only(h.doc, d) else \
+              ("table contents depend on the evaluation order: " + d[0].split(" ")[0] + " differs")
+        h._find(PROP, sig,
                 "; ".join(d[:3]) + " (first=engine order, second=permuted)", fake, {"perm_seed": seed + len(h.log)})
         state["dead"] = True
         return res
